@@ -726,6 +726,39 @@ def run(ctx):
                      family="program-" + hist["kind"], outcome=res, executions=len(hist["runs"]))
 
 
+def search(ctx):
+    """after a break: longer raw histories and more chain / program histories, oracle and correspondence as in run()"""
+    rng = ctx.rng
+    env()
+    jobs = []
+    for _ in range(ctx.n(150, 600)):
+        hist = gen_raw(rng, 16)
+        sess = Session(ctx, "raw")
+        exec_raw(sess, hist)
+        jobs.append(("raw", hist, sess, None))
+    for _ in range(ctx.n(20, 80)):
+        hist = gen_chain_history(rng)
+        sess, runs = run_chain_history(ctx, hist)
+        jobs.append(("chain", hist, sess, runs))
+    for _ in range(ctx.n(10, 40)):
+        ph = gen_prog_history(rng)
+        sess, runs = run_prog_history(ctx, ph)
+        jobs.append(("prog", ph, sess, runs))
+    lines, offs = [], []
+    for kind, hist, sess, extra in jobs:
+        offs.append(len(lines))
+        lines += sess.lines()
+    replies = ctx.model("C25", lines)
+    for (kind, hist, sess, extra), o in zip(jobs, offs):
+        res = sess.check(replies[o:o + len(sess.lines())], hist)
+        if kind == "chain" and res != "violation":
+            r2 = chain_oracle(ctx, hist, extra)
+            res = r2 if r2 != "ok" else res
+        ctx.case(key="search:" + json.dumps(hist, sort_keys=True), family="search-" + kind, outcome=res)
+        if ctx.violations:
+            break
+
+
 def replay(ctx, case):
     c = case.get("case") or {}
     fam = c.get("family") if isinstance(c, dict) else None
